@@ -5,7 +5,6 @@ package main
 // independent reader, compared with Model.Pkg by coqc and judged by the property oracles.
 
 import (
-	"strconv"
 	"archive/zip"
 	"bytes"
 	"crypto/sha1"
@@ -20,6 +19,7 @@ import (
 	"path"
 	"path/filepath"
 	"sort"
+	"strconv"
 	"strings"
 
 	"github.com/zerx-lab/wordZero/pkg/document"
@@ -90,10 +90,10 @@ type hop struct {
 	WMM     int      `json:"wmm,omitempty"`
 	HMM     int      `json:"hmm,omitempty"`
 	Keep    bool     `json:"keep,omitempty"`
-	WUm     int      `json:"w_um,omitempty"`   // requested width / height of a body picture in micrometres (0 = not given)
+	WUm     int      `json:"w_um,omitempty"` // requested width / height of a body picture in micrometres (0 = not given)
 	HUm     int      `json:"h_um,omitempty"`
 	HasCfg  bool     `json:"has_cfg,omitempty"`
-	CfgID   int      `json:"cfg_id,omitempty"` // > 0: the caller's configuration object with this number (shared between additions)
+	CfgID   int      `json:"cfg_id,omitempty"`  // > 0: the caller's configuration object with this number (shared between additions)
 	FmtStr  string   `json:"fmt_str,omitempty"` // a format string that is not one of the library's constants ("PNG", "Jpeg", "bmp", ""): the call may be refused
 	DataID  int      `json:"data_id,omitempty"` // Render: > 0 = the caller's template data object with this number (shared between renderings)
 	Imgs    []imgArg `json:"imgs,omitempty"`
@@ -150,8 +150,8 @@ func imgDims(atom int) (int, int) { return 2 + atom%5, 2 + (atom/5)%4 }
 
 type fRel struct {
 	ID, Kind, Target string
-	External        bool
-	Abs             bool // the target is written package-absolute ("/word/media/image1.png"), as several producers do
+	External         bool
+	Abs              bool // the target is written package-absolute ("/word/media/image1.png"), as several producers do
 }
 
 type foreignPkg struct {
@@ -481,17 +481,17 @@ func genForeign(r *rng) *foreignPkg {
 // ---- running one history on the implementation -------------------------------------------------
 
 type docState struct {
-	doc      *document.Document
-	table    *document.Table
-	images   []int             // atoms of every image the document must show (multiset)
-	hf       map[string]string // "header/default" -> latest payload text
-	foreign  map[string][]byte // parts of the opened foreign package, by name
-	touched  map[string]bool   // parts that calls made so far are entitled to rewrite
-	frels    []RelV            // document relationships of the foreign package
-	extents  map[int][2]int64  // atom -> expected extent (cx, cy) for images added with a size config
-	ptexts   []string          // placeholder / plain paragraph texts added (for text presence)
-	phs      []int             // image placeholders present in the body
-	extIn    map[int]extIn     // atom -> pixel size and configuration the body picture was added with
+	doc     *document.Document
+	table   *document.Table
+	images  []int             // atoms of every image the document must show (multiset)
+	hf      map[string]string // "header/default" -> latest payload text
+	foreign map[string][]byte // parts of the opened foreign package, by name
+	touched map[string]bool   // parts that calls made so far are entitled to rewrite
+	frels   []RelV            // document relationships of the foreign package
+	extents map[int][2]int64  // atom -> expected extent (cx, cy) for images added with a size config
+	ptexts  []string          // placeholder / plain paragraph texts added (for text presence)
+	phs     []int             // image placeholders present in the body
+	extIn   map[int]extIn     // atom -> pixel size and configuration the body picture was added with
 }
 
 // extIn: what decides the displayed size of a body picture
